@@ -184,7 +184,7 @@ func build(p *prop, wd string) (string, error) {
 	args := []string{"test", "-c", "-vet=off", "-o", bin}
 	if p.Overlay {
 		ovDir := filepath.Join(wd, "overlay")
-		ovJSON, err := genOverlay(ovDir)
+		ovJSON, err := genOverlay(ovDir, p.ID)
 		if err != nil {
 			return "", fmt.Errorf("INSTRUMENTATION-ERROR: %w", err)
 		}
@@ -704,7 +704,7 @@ func cmdInstr(args []string) int {
 	if len(args) < 1 {
 		usage()
 	}
-	j, err := genOverlay(args[0])
+	j, err := genOverlay(args[0], "")
 	if err != nil {
 		fmt.Fprintln(os.Stderr, "INSTRUMENTATION-ERROR:", err)
 		return 2
